@@ -5,6 +5,19 @@ HERE = os.path.dirname(os.path.dirname(os.path.abspath(__file__)))
 ALL = ['C%02d' % i for i in range(1, 21)]
 
 CLAIMED = {
+ 'C07': dict(
+    level='model_checking',
+    text='Three parts. (i) Totality sweep: ~100 failing-capable statement templates inside and outside the reference subset (arithmetic, '
+         'string functions, arrays, DATA, PRINT USING, ^, non-finite floats, every device statement with a permissive and a strict '
+         'peripheral implementation) under 8 handler regimes and all configurations, plus generated programs: every run must end halted '
+         'with a reason, no exception may leave cpu.tick(). (ii) Trace_Traps.tla decides for every executed instruction, from logged '
+         'operand facts, whether it had to trap and which classes it may report. (iii) Irq.tla models tick/interrupt (MC_Irq: the request '
+         'is served by the very next step with the machine state unchanged); for EVERY instruction boundary of a set of programs a fresh '
+         'machine is ticked to the boundary, the interrupt is requested as the signal handler does, and Trace_Irq.tla validates halt, '
+         'trap class and unchanged stack / frames / globals / device history / pc.',
+    note='Trusted: TLC, the tick recorder with an instance-level wrapper of cpu._trap, sha1 digests of the machine state. Float overflow is judged only through non-finite results.',
+    technique='TLA+ interrupt model (TLC) + trace validation of every tick (trap class by cause) + exhaustive interrupt boundaries replayed on the real VM',
+    design='6 C07'),
  'C03': dict(
     level='model_checking',
     text='QVMTypes.tla gives the type-level semantics of every QVM instruction and device operation (operand types required on the stack, '
